@@ -135,6 +135,11 @@ def fd_bookkeeping(ctx):
     svds = [x for x in walk(new['e']) if is_ext_call(x, 'jax.numpy.linalg.svd')]
     ctx.need('C16.O2', len(set(svds)), 1, 'svd in _fd_update_fn')
     S = svds[0]
+    from ..lib import kwarg
+    fm = kwarg(S, 'full_matrices')
+    ctx.ob('C16.O2', fi.short, f'thin SVD [{alg}]', fm is not None and is_const(fm, False),
+           'the sketch must be refreshed from the THIN SVD (full_matrices=False): with the full one `vt` is n x n and the stored directions change shape', ctx.loc(fi),
+           sample='jnp.linalg.svd(B, full_matrices=False)')
     old = lambda k: ev.subscript(st0, const(k))
     env = {'s': T('sub', S, const(1)), 'vt': T('sub', S, const(2)), 'g': G, 'alpha0': old('alpha'), 'w0': old('w'), 't0': old('t'),
            'P0': old('P'), 'e0': old('e'), 'lr': sym('hp', 'lr')}
